@@ -25,6 +25,7 @@ TECH = {
     'C06': 'Kani: ghost drop counters + CBMC double-free / memory-leak checks on real generated modules (corpus)',
     'C07': 'Kani: contract of the four storage primitives under symbolic placement + bare-buffer probes + call-site receiver classification of generated modules',
     'C16': 'Kani: contracts of generated clone / clone_from on real generated modules (corpus)',
+    'C13': 'Verus: panic-freedom of the text rendering under the variant invariant; Kani: panic-freedom and bounds of max_size / max_type_align on every builder-reachable state (bounded)',
     'C08': 'Kani: postcondition of try_convert_vec_in_place checked with a specification converter, bounded vector length',
     'C09': 'Kani: error-arm postcondition with ghost drop counters and CBMC memory-leak check, bounded vector length',
     'C10': 'Kani: per type pair the refusal assertion is the only failing check and the converter is unreachable',
@@ -59,7 +60,7 @@ def main():
             'enable': 'cargo kani sets --cfg kani; harness crates under /verif/kani and /verif/gk depend on /repo crates by path',
             'baseline_off_cmd': 'cd /repo && cargo test --workspace --no-fail-fast --offline',
             'source_commits': P.HOOK_COMMITS,
-            'add_only': True,
+            'add_only': False,
         },
         'engines': [
             {'name': 'vx+verus', 'path': 'lib/vx.py, contracts/*.rs.tpl', 'serves_properties': [p for p in P.PROPERTIES if any(u['kind'] == 'verus' for u in P.PROPERTIES[p]['units']('quick'))], 'kind_free_text': 'mechanical extraction of real functions + Verus (unbounded deductive proof)'},
@@ -68,7 +69,7 @@ def main():
         ],
         'checks': checks,
         'not_applicable': na,
-        'notes': 'exit 0 pass / exit 1 VIOLATION / exit 2 inconclusive (lost anchor, unsupported construct, resource limit: never an alarm). Known findings: known_findings.json.',
+        'notes': 'hooks: two cfg(kani) include! modules (add-only) and one entry added to the existing check-cfg list of truc/Cargo.toml (hence add_only=false). exit 0 pass / exit 1 VIOLATION / exit 2 inconclusive (lost anchor, unsupported construct, resource limit: never an alarm). Known findings: known_findings.json.',
     }
     json.dump(m, open(os.path.join(P.VERIF, 'MANIFEST.json'), 'w'), indent=1)
     print('claimed:', [c['property_id'] for c in checks])
